@@ -226,6 +226,16 @@ fn main() {
                 let _ = writeln!(out, "{}.fsum{}x{}.value	{}	{}", i, n, fk, ft, outcome(fe.search(fdoc.clone())));
                 let _ = writeln!(out, "{}.fsum{}x{}.variable_ref	{}	{}", i, n, fk, ft, outcome(fe.search(&fv)));
             }
+            // numbers that differ in the last bits, compared inside and outside filters
+            let close = serde_json::json!({"vs": [{"id": "a", "v": 0.30000000000000004}, {"id": "b", "v": 0.5}, {"id": "c", "v": 0.3}, {"id": "d", "v": 1e15}, {"id": "e", "v": 1000000000000000.1}],
+                                           "p": 0.1, "q": 0.2, "r": 0.3});
+            for (ck, ct) in ["vs[?v == `0.3`].id", "vs[?v != `0.3`].id", "vs[?!(v == `0.3`)].id", "vs[?v == `0.3` && id != 'c'].id", "vs[0].v == `0.3`", "vs[?v == `1e15`].id", "vs[?v <= `0.3`].id",
+                             "vs[?v == vs[2].v].id", "contains(vs[*].v, `0.3`)", "vs[*].v | [?@ == `0.3`]"].iter().enumerate() {
+                let ce = jmespath::compile(ct).unwrap();
+                let cv = var_of(&close);
+                let _ = writeln!(out, "{}.close{}x{}.value\t{}\t{}", i, n, ck, ct, outcome(ce.search(close.clone())));
+                let _ = writeln!(out, "{}.close{}x{}.variable_ref\t{}\t{}", i, n, ck, ct, outcome(ce.search(&cv)));
+            }
             let text = ["length(xs)", "length(s)", "length(o)", "length(keys(o))", "sort(xs)[0]", "reverse(s) | length(@)", "join('', ss) | length(@)", "xs[*] | length(@)", "max(xs)", "length(values(o))",
                         "sort_by(xs, &@)[-1]", "length(to_array(xs))", "sum(xs)", "length(ss[?@ == 'w1'])", "length(merge(o, o))"][rng.below(15)];
             let e = jmespath::compile(text).unwrap();
